@@ -5,6 +5,8 @@ import json
 
 EAGERS = [
     {"c": "ListOffset", "w": "64", "o": [0, 2, 2, 5], "x": {"c": "Numpy", "dt": "i64", "d": [1, 2, 3, 4, 5]}},
+    # a view into the middle of a longer buffer (what big[2:6] is): positions counted from the buffer's origin show
+    {"c": "Numpy", "dt": "i64", "d": [100, 101, 102, 103, 104, 105, 106, 107], "shape": [4], "off": 2},
     {"c": "Numpy", "dt": "f64", "d": [1, 2, 3]},
     {"c": "IndexedOption", "w": "64", "i": [1, -1, 0], "x": {"c": "Numpy", "dt": "i64", "d": [10, 20]}},
     {"c": "Record", "tuple": 0, "names": ["x", "y"], "n": 3,
@@ -24,7 +26,7 @@ def _op(o, n):
         return {"op": k, "a": o["a"], "b": o["b"]}
     if k == "num":
         return {"op": "num", "axis": o["axis"]}
-    if k in ("slice_depths", "slice_sum"):
+    if k in ("slice_depths", "slice_sum", "slice_json"):
         return dict(o)
     if k == "carry":
         return {"op": "carry", "index": [n - 1, 0] if n > 0 else []}
@@ -34,7 +36,7 @@ def _op(o, n):
 def steps_virtual(case, pick):
     cfg = case["cfg"]
     eager = pick(EAGERS)
-    n = {"ListOffset": lambda e: len(e["o"]) - 1, "Numpy": lambda e: len(e["d"]), "IndexedOption": lambda e: len(e["i"]),
+    n = {"ListOffset": lambda e: len(e["o"]) - 1, "Numpy": lambda e: (e["shape"][0] if "shape" in e else len(e["d"])), "IndexedOption": lambda e: len(e["i"]),
          "Record": lambda e: e["n"], "Regular": lambda e: len(e["x"]["d"]) // e["size"]}[eager["c"]](eager)
     st = {"op": "virtual_run", "eager": eager, "mode": cfg["mode"], "declare_length": cfg["len"], "declare_form": cfg["form"],
           "cache": cfg["cache"], "schedule": [_op(h["o"], n) for h in case["steps"]]}
@@ -43,7 +45,7 @@ def steps_virtual(case, pick):
     if cfg["mode"] == "bad_first":
         st["alt"] = {"c": "Numpy", "dt": "b", "d": [1]}
     # (the slices of the depth questions are answered lazily by the VirtualArray itself, not by a list node above it)
-    if pick([0, 0, 1]) == 1 and not any(h["o"]["op"] in ("slice_depths", "slice_sum", "depths") for h in case["steps"]):
+    if pick([0, 0, 1]) == 1 and not any(h["o"]["op"] in ("slice_depths", "slice_sum", "depths", "slice_json") for h in case["steps"]):
         st["wrap_offsets"] = [0, n] if pick([0, 1]) else [0, 0, n]
     return [st]
 
